@@ -71,7 +71,7 @@ structure BitBuf where
   ty : Option Scalar
   buffer : Int
   remaining : Nat
-  deriving Repr
+  deriving Repr, DecidableEq
 
 def BitBuf.empty : BitBuf := { ty := none, buffer := 0, remaining := 0 }
 
